@@ -16,7 +16,7 @@ from functools import reduce
 import petl
 from petl.transform.reductions import Conflict
 
-from petlmon import gen, util
+from petlmon import gen, probes, util
 
 ID = 'C09'
 LEVEL = 'exploration'
@@ -30,7 +30,8 @@ FORMS = ['aggregate-rows', 'aggregate-value', 'aggregate-values', 'aggregate-len
          'aggregate-multi-none', 'rowreduce', 'rowgroupmap', 'fold', 'groupselectfirst', 'groupselectlast', 'groupselectmin', 'groupselectmax',
          'mergeduplicates', 'merge', 'groupcountdistinctvalues', 'rowgroupby', 'rowgroupby-callable', 'valuecounts', 'valuecounter']
 REQUIRED = (['form:' + f for f in FORMS] + ['key-none-group', 'equal-but-different-type-keys-in-one-group', 'single-row-group-first', 'single-row-group-last',
-            'compound-key', 'chunked', 'presorted', 'header-only', 'rows-handed-to-recorders', 'min/max-tie', 'merge:header-only-table-not-last', 'mergeduplicates:non-default-missing', 'mergeduplicates:short-rows', 'key-by-index', 'merge:reverse', 'second-pass-compared'])
+            'compound-key', 'chunked', 'presorted', 'header-only', 'rows-handed-to-recorders', 'min/max-tie', 'merge:header-only-table-not-last', 'mergeduplicates:non-default-missing', 'mergeduplicates:short-rows', 'key-by-index', 'merge:reverse', 'second-pass-compared', 'rows-without-a-key-cell', 'failing-first-pass'])
+FAILFIRST_FORMS = ('aggregate-len', 'aggregate-values', 'groupselectfirst', 'groupselectlast', 'groupselectmin', 'groupselectmax')
 KPOOL = [None, 1, 1.0, True, 2, 'a', 'b', b'a', (1, 2), gen.D(2020, 1, 1)]
 LISTKEY = [1, 2]      # a list-valued key cell is equivalent to the tuple (1, 2) under the ordering (C04): one group
 VPOOL = [0, 1, 2, 3, 5, -1, 2.5]
@@ -64,6 +65,14 @@ def cases(ctx):
         c = {'form': f, 'table': t, 'key': key, 'buffersize': rng.choice([None, None, 1, 2, 3]), 'presorted': rng.random() < 0.2}
         if f == 'merge' and rng.random() < 0.3:
             c['reverse'] = True
+        if f in FAILFIRST_FORMS and n >= 2 and rng.random() < 0.15:
+            # the first pass over the view hits a source failure at this data row; the judged pass comes after it
+            c['failfirst'] = rng.randint(1, n)
+        if f in ('aggregate-len', 'groupselectfirst', 'groupselectlast') and rng.random() < 0.25:
+            # rows too short to hold the key cell(s): they form (or join) the None group
+            for r_ in t[1:]:
+                if rng.random() < 0.3:
+                    del r_[rng.choice([0, 0, 1]):]
         if f in ('mergeduplicates', 'merge') and rng.random() < 0.5:
             c['missing'] = rng.choice(['NA', 0, 'x'])
             if f == 'mergeduplicates':
@@ -79,7 +88,7 @@ def _groups(rows, kidx):
     """reference grouping: [(representative key values, [rows in input order])] in ascending model order"""
     groups = []
     for r in rows:
-        k = tuple(r[i] for i in kidx)
+        k = tuple((r[i] if i < len(r) else None) for i in kidx)       # a key cell the row does not have counts as None
         for g in groups:
             if util.model_cmp(g[0], k) == 0:
                 g[1].append(r)
@@ -112,7 +121,9 @@ def judge(case, ctx):
         ctx.seen('key-by-index')
     if any(all(x is None for x in g[0]) for g in groups):
         ctx.seen('key-none-group')
-    if any(len({util.canon(tuple(r[i] for i in kidx)) for r in g[1]}) > 1 for g in groups):
+    if any(len(r) <= max(kidx) for r in rows):
+        ctx.seen('rows-without-a-key-cell')
+    if any(len({util.canon(tuple((r[i] if i < len(r) else None) for i in kidx)) for r in g[1]}) > 1 for g in groups):
         ctx.seen('equal-but-different-type-keys-in-one-group')
     if groups and len(groups[0][1]) == 1:
         ctx.seen('single-row-group-first')
@@ -129,9 +140,26 @@ def judge(case, ctx):
     if presorted:
         ctx.seen('presorted')
         kw['presorted'] = True
-        src = [hdr] + sorted(table[1:], key=lambda r: util.model_key(tuple(r[i] for i in kidx)))
+        src = [hdr] + sorted(table[1:], key=lambda r: util.model_key(tuple((r[i] if i < len(r) else None) for i in kidx)))
     vi, idi = hdr.index('v'), hdr.index('id')
     out = []
+    ff = case.get('failfirst')
+    if ff is not None:
+        src = probes.FailingSource(src, fail_at=ff, only_pass=1)
+
+    def run(build):
+        if ff is None:
+            return util.attempt_rows(build)
+        v = util.attempt(build)
+        if isinstance(v, util.Raised):
+            return v
+        try:
+            for _ in iter(v):
+                pass
+            ctx.seen('failing-first-pass:fault-not-reached')
+        except probes.InjectedFault:
+            ctx.seen('failing-first-pass')
+        return util.attempt_rows(lambda: v)
     log = []          # (group key as handed, [ids]) per recorder call
 
     def rec_rows(group_rows):
@@ -183,7 +211,7 @@ def judge(case, ctx):
 
     def keycells(g):
         # petl reports the key of the first row of the group
-        return tuple(g[1][0][i] for i in kidx)
+        return tuple((g[1][0][i] if i < len(g[1][0]) else None) for i in kidx)
     khdr = tuple(hdr[i] for i in kidx)
     keyarg = key
     if form.startswith(('aggregate', 'mergeduplicates', 'merge', 'groupcountdistinctvalues')) and 'none' not in form:
@@ -205,11 +233,11 @@ def judge(case, ctx):
         if compare(got, exp) and sum(r[-1] for r in got[1:]) != sum(r[vi] for r in rows):
             out.append({'kind': 'group-sums-do-not-add-up'})
     elif form == 'aggregate-values':
-        got = util.attempt_rows(lambda: petl.aggregate(src, keyarg, list, ('id', 'v'), **kw))
+        got = run(lambda: petl.aggregate(src, keyarg, list, ('id', 'v'), **kw))
         exp = [khdr + ('value',)] + [keycells(g) + ([(r[idi], r[vi]) for r in g[1]],) for g in groups]
         compare(got, exp)
     elif form == 'aggregate-len':
-        got = util.attempt_rows(lambda: petl.aggregate(src, keyarg, len, **kw))
+        got = run(lambda: petl.aggregate(src, keyarg, len, **kw))
         exp = [khdr + ('value',)] + [keycells(g) + (len(g[1]),) for g in groups]
         if compare(got, exp) and sum(r[-1] for r in got[1:]) != len(rows):
             out.append({'kind': 'group-counts-do-not-add-up'})
@@ -279,12 +307,12 @@ def judge(case, ctx):
             out.append({'kind': 'fold-called-its-function-a-wrong-number-of-times', 'calls': len(calls), 'expected': len(rows) - len(groups)})
     elif form in ('groupselectfirst', 'groupselectlast'):
         fn = getattr(petl, form)
-        got = util.attempt_rows(lambda: fn(src, keyarg, **kw))
+        got = run(lambda: fn(src, keyarg, **kw))
         exp = [tuple(hdr)] + [g[1][0 if form.endswith('first') else -1] for g in groups]
         compare(got, exp)
     elif form in ('groupselectmin', 'groupselectmax'):
         fn = getattr(petl, form)
-        got = util.attempt_rows(lambda: fn(src, keyarg, 'v', **kw))
+        got = run(lambda: fn(src, keyarg, 'v', **kw))
         exp = [tuple(hdr)]
         for g in groups:
             best = None
